@@ -333,6 +333,32 @@ def make_guard_rule(name, atoms, statement):
                 if not ok:
                     r.violate(w, 'wrapper-not-delegating', target, 'public %s no longer simply delegates to the analysed lookup %s' % (w, target),
                               where=ctx.where(w))
+        # every other way to draw items from a cache iterator goes through the analysed `next`: an override of another std::iter method
+        # (nth, fold, last, next_back, ...) that touches the underlying map iterator hands out, or silently consumes, unfiltered entries
+        for nid, kind, rkind in lookup_table(ctx):
+            b0 = ctx.prog.bodies.get(nid)
+            if b0 is None or not nid.endswith(' as std::iter::Iterator>::next') or not b0.impl_self:
+                continue
+            adt = norm(str(b0.impl_self.get('adt') or ''))
+            inner = set()
+            for v_ in (ctx.prog.adts.get(adt) or {}).get('variants', ()):
+                for f_ in v_['fields']:
+                    a_ = norm(str(f_['ty'].get('adt') or ''))
+                    if 'iter' in a_.lower():
+                        inner.add(a_)
+            sibs = [(n2, b2) for n2, b2 in ctx.prog.bodies.items() if b2.impl_self and norm(str(b2.impl_self.get('adt') or '')) == adt
+                    and (b2.impl_trait or '').startswith('std::iter::') and n2 != nid and b2.trait_item and b2.trait_item.split('::')[-1] != 'size_hint']
+            r.instance(iterator=adt, next=nid, underlying=sorted(inner), other_iteration_methods=[n2 for n2, _ in sibs])
+            for n2, b2 in sibs:
+                group = [b2] + [bc for bc in ctx.prog.bodies.values() if bc.kind == 'closure' and bc.root == n2]
+                for bx in group:
+                    for _, t in bx.calls():
+                        tys = ' '.join(str(a_.get('pty') or '') for a_ in t.get('args', ()))
+                        hit = [i_ for i_ in inner if i_ in norm(tys)]
+                        if hit:
+                            r.violate(n2, 'iterator-override-unfiltered', t.get('callee') or '?',
+                                      '%s draws from the underlying %s directly (%s): entries it passes over or returns are not checked by the liveness filter of next'
+                                      % (n2, hit[0], norm(str(t.get('callee') or '?'))), where=ctx.where(n2, t.get('line')))
         r.require_floor(6 + nlook if has_sync else 3, 'hit paths of lookups')
         return r
     rule.__name__ = 'rule_' + name.lower().replace('-', '_').replace('(', '_').replace(')', '')
